@@ -193,6 +193,10 @@ class Histogram1D(ObjectWithBinning, HistogramBase):
         dtype = self._missed_dtype([value])
         if dtype != self._missed.dtype and self._missed.dtype.kind in "iu":
             self._missed = self._missed.astype(dtype)
+        if self.dtype.kind in "iu" and self._missed.dtype.kind == "f" and np.isfinite(value):
+            # The counts of an integer histogram are integers (as they would be stored had no
+            # "unknown" widened the array before); only the unknown itself is not
+            value = self.dtype.type(value)
         self._missed[index] = value
 
     def copy(self, *, include_frequencies: bool = True) -> "Histogram1D":
